@@ -22,9 +22,9 @@ PROPS["C12"] = {
     "level_note": "partial: F9a (a reopen retry loop spanning a rebalance close kills the client) is a known finding outside the generated histories; trusted: Lean kernel, Model/Life.lean, L1 harness",
 }
 PROPS["C13"] = {
-    "streams": ["life-shut"], "audit": "C13.lean", "retry_divergence": 2, "timeout": 900,
+    "streams": ["life-shut", "life-trail"], "audit": "C13.lean", "retry_divergence": 2, "timeout": 900,
     "rule": _LIFE_RULE, "assumptions": _LIFE_ASSUME + ["Close() = the stream-level part of dcp.close (Save when checkpoint.type=auto, then stream.Close); bounded time is measured by the harness, not proved"],
     "design_ref": "DESIGN.md §7 C13, §6 F4 F6",
     "level_text": "Kernel-checked on the validated life-cycle model: stream.Close crashes exactly when the observers map is nil (doClose_none_iff), otherwise it closes every vBucket stream, closes the observers (no later delivery, later ends ignored) and emits no fail-stop (doClose_clean); the full statement is refuted inside the rebalance window (close_terminates_full_refuted = finding F4). Tied to the real code by shutdowns injected after open, mid-history and at every step of a rebalance.",
-    "level_note": "partial: F4 (Close inside a rebalance window) and F6 (one trailing periodic save after Close) are known findings; trusted: Lean kernel, Model/Life.lean, L1 harness",
+    "level_note": "partial: F4 (Close inside a rebalance window) is a known finding; F6 (one trailing periodic save after Close) was repaired by fix: 06b98a1 and stays in the corpus; trusted: Lean kernel, Model/Life.lean, L1 harness",
 }
